@@ -271,6 +271,8 @@ func runCheck(o *Options) int {
 	par := runtime.NumCPU()
 	solveAll(obls, workDir, o.timeoutMs, o.tier == "thorough", par)
 
+	encs, obls = retryAltLoops(w, o, encs, obls, workDir, par)
+
 	grounds := runGrounds(w, o)
 	grounds = append(grounds, runScans(w, o)...)
 	lemmas := runLemmas(w, o, workDir)
@@ -294,6 +296,59 @@ func runCheck(o *Options) int {
 
 	rep := buildReport(w, o, encs, obls, grounds, lemmas, loadMs, start)
 	return rep.finish(w, o, start)
+}
+
+// retryAltLoops: a contract may carry a second candidate set of loop clauses (`loop k alt invariant ...`).
+// Any inductive invariant that carries the postconditions is a proof, so when some obligation of a function
+// has no proof under the primary loop clauses the function is encoded once more under the alternative set;
+// if EVERY obligation of that second encoding is discharged, it replaces the first (and a note is printed).
+// Otherwise the primary result stands. This keeps a behaviour-preserving change of a loop's induction scheme
+// (re-slicing -> index variable) from raising an alarm; it cannot hide a violation, because nothing is
+// reported as proved that a back end did not discharge against the current body.
+func retryAltLoops(w *World, o *Options, encs []*Enc, obls []*Obligation, workDir string, par int) ([]*Enc, []*Obligation) {
+	for i, e := range encs {
+		if e == nil || e.c == nil || len(e.c.AltLoops) == 0 || e.fn == nil {
+			continue
+		}
+		bad := false
+		for _, ob := range obls {
+			if ob.enc == e && ob.Status != "discharged" {
+				bad = true
+			}
+		}
+		if !bad {
+			continue
+		}
+		c2 := *e.c
+		c2.Loops, c2.AltLoops = e.c.AltLoops, nil
+		e2 := encodeFunction(w, e.fn, &c2)
+		var obls2 []*Obligation
+		for _, ob := range e2.obls {
+			if hasProp(ob.Props, o.property) {
+				obls2 = append(obls2, ob)
+			}
+		}
+		solveAll(obls2, workDir, o.timeoutMs, o.tier == "thorough", par)
+		ok := len(obls2) > 0
+		for _, ob := range obls2 {
+			if ob.Status != "discharged" {
+				ok = false
+			}
+		}
+		if !ok {
+			continue
+		}
+		fmt.Fprintf(os.Stderr, "note: %s: proved under the alternative loop clauses of its contract (the primary set has no proof for the current body)\n", e.key)
+		encs[i] = e2
+		var keep []*Obligation
+		for _, ob := range obls {
+			if ob.enc != e {
+				keep = append(keep, ob)
+			}
+		}
+		obls = append(keep, obls2...)
+	}
+	return encs, obls
 }
 
 func runFuncs(o *Options) int {
